@@ -604,6 +604,11 @@ class Gen:
                     continue
                 a = self.element(n)
                 i = rng.choice(list(range(0, n + 1)) + [1, 2, 3])
+                if it == 0:
+                    i = n // 2 + 1          # a power in the upper half on a dense element, by name for every level
+                    a = self.dense(n)
+                elif it == 1:
+                    i = n
                 out.append("fpx %s %d %s %d" % (f, al, fmt(a), i))
             elif kind == "K_BN":
                 a = self.element(n)
@@ -891,7 +896,13 @@ def _translate():
 
 def extra_evidence(ctx, recs):
     r = _translate()
-    return {"generated_fpx": r["obligations"], "generated_fpx_failures": r["failures"]}
+    fh = {}
+    for x in recs:
+        t = x["line"].split(" ")
+        if t[0] == "fpx" and len(t) > 1 and x["verdict"].startswith("ok"):
+            fh[t[1]] = fh.get(t[1], 0) + 1
+    return {"generated_fpx": r["obligations"], "generated_fpx_failures": r["failures"], "functions_exercised": len(fh),
+            "function_histogram": dict(sorted(fh.items()))}
 
 
 def streams(ctx, scale=1):
@@ -912,7 +923,7 @@ def streams(ctx, scale=1):
                 TOWERS[(cfg, pl)] = None
                 continue
             if pairing:
-                levels = [2, 3, 4, 6, 8, 9, 12] + ([16, 18, 24] if (ctx.tier == "thorough" or i == 0) else [])
+                levels = [2, 3, 4, 6, 8, 9, 12] + ([16, 18, 24] if (ctx.tier == "thorough" or i < 2) else [])
                 if ctx.tier == "thorough" and i < 2:
                     levels += [48, 54]
             else:
